@@ -22,6 +22,8 @@ pub struct Monitors {
     pub joiner: bool,
     /// C04 probe in every state
     pub reject: bool,
+    /// C16 external observers
+    pub external: bool,
 }
 
 #[derive(Clone, Debug, PartialEq, Eq)]
@@ -30,6 +32,8 @@ pub enum Act {
     Propose { by: usize, prop: Prop },
     ProposeUpdate { by: usize },
     External { by: usize, resync: bool },
+    /// an observer acting as the group's external sender proposes a Remove / an Add (C16)
+    ExternalPropose { remove: bool },
 }
 
 #[derive(Clone)]
@@ -39,6 +43,7 @@ pub struct HState {
     pub pending_adds: Vec<(usize, MlsMessage)>,
     /// handshake messages of the last round (for wrong-epoch replays)
     pub last_round_msgs: Vec<MlsMessage>,
+    pub obs: super::c16::ObsState,
 }
 
 #[derive(Clone, Debug, PartialEq, Eq)]
@@ -70,7 +75,7 @@ impl HistoryModel {
         for p in 0..self.n_parties {
             w.set_psk(p, 0, b"psk-zero-value".to_vec());
         }
-        HState { w, pending_adds: vec![], last_round_msgs: vec![] }
+        HState { w, pending_adds: vec![], last_round_msgs: vec![], obs: Default::default() }
     }
 
     /// Scripted seed: apply a list of rounds through the same step function (oracles included).
@@ -82,6 +87,12 @@ impl HistoryModel {
         }
         ctx.cur_trail = vec![format!("seed-script {name}")];
         ctx.path = vec![];
+        if self.mon.external {
+            let table = std::mem::take(&mut s.w.stores);
+            stores::install(table);
+            super::c16::spawn(&mut s, ctx);
+            s.w.stores = stores::uninstall();
+        }
         for a in acts {
             ctx.cur_trail.push(format!("{a:?}"));
             if let Step::Stop = self.step(&mut s, &a, ctx) {
@@ -299,6 +310,7 @@ impl HistoryModel {
         let pre_epoch = w.g(by).current_epoch();
         let prev_tree_bytes = tree_bytes(w.g(by));
         let committer_leaf = w.leaf_of(by);
+        let had_cached_refs = !w.g(by).get_cached_proposals().is_empty();
         log_start();
         let built = w.commit(by, spec);
         let recs = log_take();
@@ -465,6 +477,10 @@ impl HistoryModel {
             round.push(("group-info".into(), gi.clone()));
         }
         self.ghost_check(w, &round, &built.out.welcome_messages, &joined_now, ctx);
+        if self.mon.external {
+            let m = round[0].1.clone();
+            super::c16::on_commit(s, &m, had_cached_refs, ctx);
+        }
         Step::Continue
     }
 
@@ -502,7 +518,10 @@ impl HistoryModel {
         }
         s.last_round_msgs.push(m.clone());
         let w = &mut s.w;
-        self.ghost_check(w, &[("round-proposal".into(), m)], &[], &[], ctx);
+        self.ghost_check(w, &[("round-proposal".into(), m.clone())], &[], &[], ctx);
+        if self.mon.external {
+            super::c16::on_proposal(s, &m, ctx);
+        }
         Step::Continue
     }
 
@@ -576,7 +595,10 @@ impl HistoryModel {
         s.pending_adds.clear();
         ctx.goal("external-commit");
         self.after_epoch_change(w, "external-commit", Some(by), &prev_tree_bytes, true, ctx);
-        self.ghost_check(w, &[("round-commit".into(), msg), ("group-info".into(), gi)], &[], &[by], ctx);
+        self.ghost_check(w, &[("round-commit".into(), msg.clone()), ("group-info".into(), gi)], &[], &[by], ctx);
+        if self.mon.external {
+            super::c16::on_commit(s, &msg, false, ctx);
+        }
         Step::Continue
     }
 
@@ -586,6 +608,10 @@ impl HistoryModel {
             Act::Propose { by, prop } => self.do_propose(s, *by, Some(prop), ctx),
             Act::ProposeUpdate { by } => self.do_propose(s, *by, None, ctx),
             Act::External { by, resync } => self.do_external(s, *by, *resync, ctx),
+            Act::ExternalPropose { remove } => match super::c16::external_proposal(s, *remove, ctx) {
+                Some(_) => Step::Continue,
+                None => Step::Stop,
+            },
         };
         if self.mon.reject && matches!(step, Step::Continue) {
             super::c04::probe(s, ctx);
@@ -688,6 +714,12 @@ impl Model for HistoryModel {
             }
             if members.len() >= 2 {
                 v.push(Act::External { by: *members.last().unwrap(), resync: true });
+            }
+        }
+        if self.mon.external && members.len() >= 2 && !s.obs.observers.is_empty() {
+            v.push(Act::ExternalPropose { remove: true });
+            if o1.is_some() && !s.pending_adds.iter().any(|(x, _)| Some(*x) == o1) {
+                v.push(Act::ExternalPropose { remove: false });
             }
         }
         v
